@@ -12,6 +12,15 @@ def main(argv):
     seed, shard, nshards, budget_s = int(seed), int(shard), int(nshards), float(budget_s)
     from vf import core
     res = {'status': 'ok'}
+    cov = None
+    if os.environ.get('VERIF_COV'):
+        # developer tool (never set by a registered command): which lines of the tree under test does this workload
+        # execute at all?  A line no check ever runs is a line whose change no monitor can see.
+        import coverage
+        cov = coverage.Coverage(data_file=os.path.join(os.environ['VERIF_COV'], '.coverage'), data_suffix=True,
+                                branch=True, include=[os.path.join(core.REPO, 'mindsdb_sql', '*'),
+                                                      os.path.join(core.REPO, 'sly', '*')])
+        cov.start()
     try:
         core.use_repo()
         mod = importlib.import_module('vf.props.' + prop.lower())
@@ -24,6 +33,9 @@ def main(argv):
         res = {'status': 'inconclusive',
                'reason': f'worker error {type(e).__name__}: {e}',
                'trace': traceback.format_exc()[-4000:]}
+    if cov is not None:
+        cov.stop()
+        cov.save()
     tmp = out + '.tmp'
     with open(tmp, 'w') as f:
         json.dump(res, f, default=repr)
